@@ -97,17 +97,26 @@ func distToPath(p orb.Point, ls orb.LineString) float64 {
 	return best
 }
 
+// vtol is the per-axis tolerance of one expected vertex.
+type vtol struct{ x, y float64 }
+
+func nearV(a, b orb.Point, t vtol) bool {
+	return math.Abs(a[0]-b[0]) <= t.x && math.Abs(a[1]-b[1]) <= t.y
+}
+
 // aligned reports, for every e, whether piece p and the vertex list v[s..e]
-// are the same polyline up to collapsing vertices that coincide within tol: a
-// monotone alignment that uses every vertex of both, starts at (p[0], v[s]),
-// ends at (p[last], v[e]) and only pairs vertices within tol of each other.
-func aligned(p, v orb.LineString, s int, tol float64) []bool {
+// are the same polyline up to collapsing coinciding vertices: a monotone
+// alignment that uses every vertex of both, starts at (p[0], v[s]), ends at
+// (p[last], v[e]) and only pairs an output vertex with an expected vertex
+// v[j] when they agree within tv[j] per axis (zero for input vertices: bit
+// equality up to the sign of zero).
+func aligned(p, v orb.LineString, tv []vtol, s int) []bool {
 	n, m := len(p), len(v)-s
 	prev := make([]bool, m)
 	curr := make([]bool, m)
 	for i := 0; i < n; i++ {
 		for j := 0; j < m; j++ {
-			ok := near(p[i], v[s+j], tol)
+			ok := nearV(p[i], v[s+j], tv[s+j])
 			if ok {
 				switch {
 				case i == 0 && j == 0:
@@ -129,12 +138,13 @@ func aligned(p, v orb.LineString, s int, tol float64) []bool {
 type lineOracle struct {
 	box    orb.Bound
 	ls     orb.LineString
-	tol    float64
+	small  float64 // size below which a run / piece is "point-like" (see checkLine)
 	runs   []exact.ClipRun
 	rv     []orb.LineString // vertex list of every run: start, inner input vertices, end
-	ropt   []bool           // run may be absent (zero or below 2*tol long)
+	rt     [][]vtol         // tolerance of every vertex of rv
+	ropt   []bool           // run may be absent (a point or shorter than 2*small)
 	pieces orb.MultiLineString
-	popt   []bool // piece may be ignored (all its vertices within 2*tol of its first)
+	popt   []bool // piece may be ignored (all its vertices within 2*small of its first)
 }
 
 // match: runs i.. against pieces j..
@@ -162,7 +172,7 @@ func (o *lineOracle) cover(i, pos, j int) bool {
 		return false
 	}
 	v := o.rv[i]
-	reach := aligned(o.pieces[j], v, pos, o.tol)
+	reach := aligned(o.pieces[j], v, o.rt[i], pos)
 	last := len(v) - 1
 	if reach[last-pos] && o.match(i+1, j+1) {
 		return true
@@ -175,12 +185,143 @@ func (o *lineOracle) cover(i, pos, j int) bool {
 	return false
 }
 
-func scaleOf(box orb.Bound, ls orb.LineString) float64 {
-	s := math.Max(math.Max(math.Abs(box.Min[0]), math.Abs(box.Min[1])), math.Max(math.Abs(box.Max[0]), math.Abs(box.Max[1])))
-	for _, p := range ls {
-		s = math.Max(s, math.Max(math.Abs(p[0]), math.Abs(p[1])))
+// ---------------------------------------------------------------- tolerances
+//
+// There is no absolute length unit in any tolerance: every bound is a multiple
+// of the unit roundoff times magnitudes taken from the segment that produced
+// the vertex, so a case and its image under x -> 2^k x are judged alike.
+//
+// An end point of a piece that is not an input vertex is the intersection of
+// an input segment a->b with a box edge. Evaluated in float64 as
+// x = a0 + (b0-a0)*(Y-a1)/(b1-a1) (or any equivalent well-conditioned form)
+// its free coordinate carries an error of a few eps*(|x| + |b0-a0|): every
+// difference is rounded relative to itself. That is the bound for an end point
+// produced by ONE intersection (the outside end of the segment is outside in
+// one direction only, the crossing is on that edge and not next to a corner):
+//
+//	rx = K*eps*(max(|a0|,|b0|) + |b0-a0|) + underflow/|b1-a1|     (K = 64; ry alike)
+//
+// An end point reached through two intersections (outside end in a corner
+// region, or next to a corner) inherits the first intersection's error times
+// the slope of the segment against the second edge:
+//
+//	loose: ex = 2*(rx + ry*|dx/dy|), ey = 2*(ry + rx*|dy/dx|)
+//
+// and when a segment crosses the whole box its exit is computed from the
+// clipped entry, so the entry's bound is propagated the same way.
+
+// The bounds themselves live in internal/exact/cliptol.go (shared with C08).
+const (
+	epsF = exact.ClipEps
+	kTol = exact.ClipK
+)
+
+func mul0(a, b float64) float64 { return exact.Mul0(a, b) }
+
+type segTol struct{ rx, ry, sx, sy float64 }
+
+func segTolOf(a, b orb.Point) segTol {
+	t := exact.SegTolOf(a, b)
+	return segTol{t.RX, t.RY, t.SX, t.SY}
+}
+
+func (t segTol) loose() vtol {
+	return vtol{2 * (t.rx + mul0(t.ry, t.sx)), 2 * (t.ry + mul0(t.rx, t.sy))}
+}
+
+func regionBits(b orb.Bound, p orb.Point) int {
+	n := 0
+	if p[0] < b.Min[0] || p[0] > b.Max[0] {
+		n++
 	}
-	return s
+	if p[1] < b.Min[1] || p[1] > b.Max[1] {
+		n++
+	}
+	return n
+}
+
+func ulps(p [2]float64) vtol {
+	return vtol{kTol * epsF * math.Abs(p[0]), kTol * epsF * math.Abs(p[1])}
+}
+
+// crossTol bounds the error of the computed crossing P (exact value, rounded)
+// of a segment with tolerances t whose outside end is out; base is the bound
+// of the other end of the segment when that end was itself computed.
+func crossTol(box orb.Bound, P [2]float64, out orb.Point, t segTol, base vtol) (vtol, bool) {
+	onV := P[0] == box.Min[0] || P[0] == box.Max[0]
+	onH := P[1] == box.Min[1] || P[1] == box.Max[1]
+	single := regionBits(box, out) == 1 && onV != onH
+	var e vtol
+	if single {
+		if onV {
+			e = vtol{0, t.ry + base.y + mul0(base.x, t.sy)}
+			if math.Min(math.Abs(P[1]-box.Min[1]), math.Abs(P[1]-box.Max[1])) <= 4*e.y {
+				single = false // next to a corner: rounding may move the crossing to the other edge
+			}
+		} else {
+			e = vtol{t.rx + base.x + mul0(base.y, t.sx), 0}
+			if math.Min(math.Abs(P[0]-box.Min[0]), math.Abs(P[0]-box.Max[0])) <= 4*e.x {
+				single = false
+			}
+		}
+	}
+	if !single {
+		l := t.loose()
+		e = vtol{l.x + 2*(base.x+mul0(base.y, t.sx)), l.y + 2*(base.y+mul0(base.x, t.sy))}
+	}
+	u := ulps(P)
+	e.x, e.y = math.Max(e.x, u.x), math.Max(e.y, u.y)
+	return e, single
+}
+
+// runTol returns the tolerances of the two end points of a run and whether
+// each is a single-intersection end point.
+func runTol(box orb.Bound, ls orb.LineString, r exact.ClipRun) (st, et vtol, sSingle, eSingle bool) {
+	if r.StartAtVertex {
+		st = ulps(r.Start)
+	} else {
+		a, b := ls[r.SegStart], ls[r.SegStart+1]
+		st, sSingle = crossTol(box, r.Start, a, segTolOf(a, b), vtol{})
+	}
+	if r.EndAtVertex {
+		et = ulps(r.End)
+	} else {
+		a, b := ls[r.SegEnd], ls[r.SegEnd+1]
+		var base vtol
+		if r.SegEnd == r.SegStart && !r.StartAtVertex {
+			base = st
+		}
+		et, eSingle = crossTol(box, r.End, b, segTolOf(a, b), base)
+	}
+	return
+}
+
+// worst observed |error| / bound of piece end points that are intersections
+// (statistics only): [0] single-intersection end points, [1] the others.
+var worstRatio [2]float64
+
+func noteRatio(got orb.MultiLineString, want [2]float64, t vtol, single, start bool) {
+	best := math.Inf(1)
+	for _, p := range got {
+		q := p[len(p)-1]
+		if start {
+			q = p[0]
+		}
+		r := 0.0
+		for d, tv := range []float64{t.x, t.y} {
+			if diff := math.Abs(q[d] - want[d]); diff > 0 {
+				r = math.Max(r, diff/tv)
+			}
+		}
+		best = math.Min(best, r)
+	}
+	k := 1
+	if single {
+		k = 0
+	}
+	if best <= 1 && best > worstRatio[k] {
+		worstRatio[k] = best
+	}
 }
 
 func doClip(box orb.Bound, ls orb.LineString, open bool) orb.MultiLineString {
@@ -224,14 +365,15 @@ func model(box orb.Bound, ls orb.LineString, open bool) exact.ClipResult {
 
 // checkLine judges clip.LineString(box, ls, option) against the exact model.
 //
-// Tolerances (all stated here): tol = 1e-9 * (1 + largest |coordinate| of box
-// and line). Piece end points must be within tol (per axis) of the exact run
-// end points; inner vertices of pieces must be input vertices bit-for-bit;
-// every output vertex must satisfy min <= v <= max exactly; runs that are a
-// single point or shorter than 2*tol and pieces whose vertices all lie within
-// 2*tol of their first vertex may be present or absent (measure-zero contact,
-// DESIGN §3.2), but such a piece must still be in the box and within tol of
-// the input path; total length within 4*tol*(output vertices + runs + 1).
+// Tolerances: end points of pieces against the exact run end points with the
+// per-end-point bounds of runTol; inner vertices of pieces must be input
+// vertices bit for bit; every output vertex must satisfy min <= v <= max
+// exactly. "small" is the largest loose bound of any segment of the line: a
+// run that is a point or shorter than 2*small, and a piece whose vertices all
+// lie within 2*small of its first, may be present or absent (measure-zero
+// contact, DESIGN 3.2), but such a piece must still be in the box and within
+// small of the input path. Total length within the sum of the end point
+// bounds + 4*small per point-like run/piece + 64 eps relative.
 func checkLine(box orb.Bound, ls orb.LineString, open bool) (orb.MultiLineString, error) {
 	in := copyLine(ls)
 	got := doClip(box, in, open)
@@ -259,41 +401,60 @@ func checkLine(box orb.Bound, ls orb.LineString, open bool) (orb.MultiLineString
 	}
 
 	res := model(box, ls, open)
-	tol := 1e-9 * (1 + scaleOf(box, ls))
-	o := &lineOracle{box: box, ls: ls, tol: tol, runs: res.Runs, pieces: got}
-	expLen := 0.0
+	small := 0.0
+	for i := 0; i+1 < len(ls); i++ {
+		l := segTolOf(ls[i], ls[i+1]).loose()
+		small = math.Max(small, l.x+l.y)
+	}
+	o := &lineOracle{box: box, ls: ls, small: small, runs: res.Runs, pieces: got}
+	expLen, lenTol := 0.0, 0.0
 	for _, r := range res.Runs {
+		st, et, sSingle, eSingle := runTol(box, ls, r)
 		v := make(orb.LineString, 0, len(r.Inner)+2)
-		v = append(v, orb.Point(r.Start))
+		tv := make([]vtol, 0, len(r.Inner)+2)
+		v, tv = append(v, orb.Point(r.Start)), append(tv, st)
 		for _, k := range r.Inner {
-			v = append(v, ls[k])
+			v, tv = append(v, ls[k]), append(tv, vtol{})
 		}
-		v = append(v, orb.Point(r.End))
-		o.rv = append(o.rv, v)
-		o.ropt = append(o.ropt, r.Zero || r.Length <= 2*tol)
+		v, tv = append(v, orb.Point(r.End)), append(tv, et)
+		o.rv, o.rt = append(o.rv, v), append(o.rt, tv)
+		opt := r.Zero || r.Length <= 2*small
+		o.ropt = append(o.ropt, opt)
 		expLen += r.Length
+		lenTol += 2 * (st.x + st.y + et.x + et.y)
+		if opt {
+			lenTol += 4 * small
+		} else {
+			if !r.StartAtVertex {
+				noteRatio(got, r.Start, st, sSingle, true)
+			}
+			if !r.EndAtVertex {
+				noteRatio(got, r.End, et, eSingle, false)
+			}
+		}
 	}
 	gotLen, nv := 0.0, 0
 	for k, p := range got {
-		small := true
+		pointLike := true
 		for _, v := range p {
-			if !near(v, p[0], 2*tol) {
-				small = false
+			if !near(v, p[0], 2*small) {
+				pointLike = false
 			}
 		}
-		if small {
+		if pointLike {
 			for _, v := range p {
-				if d := distToPath(v, ls); d > tol {
-					return nil, fmt.Errorf("point-like piece %d %v is %g away from the input path", k, p, d)
+				if d := distToPath(v, ls); d > small {
+					return nil, fmt.Errorf("point-like piece %d %v is %g away from the input path (allowed %g)", k, p, d, small)
 				}
 			}
+			lenTol += 4 * small * float64(len(p))
 		}
-		o.popt = append(o.popt, small)
+		o.popt = append(o.popt, pointLike)
 		gotLen += polyLen(p)
 		nv += len(p)
 	}
 	if !o.match(0, 0) {
-		return nil, fmt.Errorf("pieces differ from the exact inside part (open=%v): got %v, want runs %v (tol %g)", open, got, o.rv, tol)
+		return nil, fmt.Errorf("pieces differ from the exact inside part (open=%v): got %v, want runs %v with end point tolerances %v (point-like below %g)", open, got, o.rv, o.rt, 2*small)
 	}
 	// inner vertices of every piece are input vertices, bit for bit
 	for k, p := range got {
@@ -310,7 +471,7 @@ func checkLine(box orb.Bound, ls orb.LineString, open bool) (orb.MultiLineString
 			}
 		}
 	}
-	if lt := 4 * tol * float64(nv+len(res.Runs)+1); math.Abs(gotLen-expLen) > lt {
+	if lt := lenTol + kTol*epsF*expLen*float64(nv+1); math.Abs(gotLen-expLen) > lt {
 		return nil, fmt.Errorf("total length %v, exact length inside %v (tolerance %g); output %v", gotLen, expLen, lt, got)
 	}
 
@@ -339,7 +500,9 @@ func checkLine(box orb.Bound, ls orb.LineString, open bool) (orb.MultiLineString
 		}
 		// open option: the piece is its own open clip when its inner vertices are
 		// strictly inside and neither end segment lies on the line of a box edge
-		// (convexity); then the second clip must align with the piece within tol.
+		// (convexity); then the second clip must give the piece back within a few
+		// ulps per vertex (its end points lie on the boundary and need no new
+		// intersection).
 		pre := true
 		for i := 1; i+1 < len(p); i++ {
 			if !strictlyIn(box, p[i]) {
@@ -362,17 +525,26 @@ func checkLine(box orb.Bound, ls orb.LineString, open bool) (orb.MultiLineString
 		again = clip.LineString(box, copyLine(p), clip.OpenBound(true))
 		var keep orb.MultiLineString
 		for _, a := range again {
-			small := true
+			pointLike := true
 			for _, v := range a {
-				if !near(v, a[0], 2*tol) {
-					small = false
+				if !near(v, a[0], 2*small) {
+					pointLike = false
 				}
 			}
-			if !small {
+			if !pointLike {
 				keep = append(keep, a)
 			}
 		}
-		if len(keep) != 1 || !aligned(keep[0], p, 0, tol)[len(p)-1] {
+		tv := make([]vtol, len(p))
+		for i := range p {
+			tv[i] = ulps(p[i])
+		}
+		if i := len(p) - 1; i > 0 { // an end point on the boundary reached at a shallow angle may be recomputed
+			a, b := segTolOf(p[0], p[1]).loose(), segTolOf(p[i-1], p[i]).loose()
+			tv[0] = vtol{math.Max(tv[0].x, a.x), math.Max(tv[0].y, a.y)}
+			tv[i] = vtol{math.Max(tv[i].x, b.x), math.Max(tv[i].y, b.y)}
+		}
+		if len(keep) != 1 || !aligned(keep[0], p, tv, 0)[len(p)-1] {
 			return nil, fmt.Errorf("clipping piece %d %v again with the open option gives %v", k, p, again)
 		}
 	}
